@@ -2,10 +2,10 @@
 //! injected as closures so that the same code serves the fixed fixtures and generated interfaces.
 
 use serde_json::json;
-use vcore::ast::{render_all, show_log, Ev, Message};
-use vcore::gen::{self, Env, GenCfg, Index, MatchCfg};
+use vcore::ast::{render_all, show_log, Ev, Lit, Message, Unit};
+use vcore::gen::{self, Env, FailSpec, GenCfg, Index, MatchCfg, UnitKind};
 use vcore::runner::{esc, Stats};
-use vcore::spec::Model;
+use vcore::spec::{Header, Model, Target, Ty};
 use vcore::tape::Tape;
 
 use crate::{ProcOut, RunOut};
@@ -206,5 +206,343 @@ pub fn c02_prop(model: &Model, ix: &Index, ex: &Exec, tape: &[u32], st: &mut Sta
         st.nontrivial(&stream);
     }
     st.sample(|| json!({ "stream": esc(&stream) }));
+    Ok(())
+}
+
+// -------------------------------------------------------------------------------------------------
+// C06
+// -------------------------------------------------------------------------------------------------
+
+#[derive(Clone, Copy, Debug, PartialEq, Eq, Hash)]
+pub enum Fault {
+    Syntax,
+    UndefHard,
+    UndefSoft,
+    Arity,
+    Kind,
+    Range,
+    NotBool,
+    HandlerErr,
+}
+
+pub const FAULTS: [Fault; 8] = [
+    Fault::Syntax,
+    Fault::UndefHard,
+    Fault::UndefSoft,
+    Fault::Arity,
+    Fault::Kind,
+    Fault::Range,
+    Fault::NotBool,
+    Fault::HandlerErr,
+];
+
+/// Syntactically broken units; none contains a quote or '#'+digit, so nothing is left open.
+const SYNTAX_UNITS: &[&[u8]] = &[
+    b"A@", b"A 1 2", b"A,1", b"A ,1", b"A 1,,2", b"A?x", b"@", b":", b"A:", b"A::A", b"A 1,", b"A 1e", b"A 1.2.3", b"&A",
+    b"A 1,2,3,4,5,6,7,8,9,10,11", b"A -", b"A +", b"A $", b"1", b"A? ?", b"*", b"*?", b"A\x80", b"A 1\xff",
+    b"A (1)", b"A=1",
+];
+
+fn mismatched_literal(t: &mut Tape, ty: Ty) -> Lit {
+    match ty {
+        Ty::Str => [Lit::Dec("1".into()), Lit::Chars("abc".into()), Lit::Block { ndig: 1, body: b"x".to_vec() }][t.below(3)].clone(),
+        Ty::Bytes => [Lit::Dec("1".into()), Lit::Str { quote: b'\'', body: b"x".to_vec() }, Lit::Chars("abc".into())][t.below(3)].clone(),
+        _ => [
+            Lit::Str { quote: b'"', body: b"1".to_vec() },
+            Lit::Chars("abc".into()),
+            Lit::Block { ndig: 1, body: b"1".to_vec() },
+        ][t.below(3)]
+        .clone(),
+    }
+}
+
+/// Builds one faulty unit of the wanted kind in context `ctx`; `None` if the tree offers no
+/// declaration for it.
+pub fn gen_faulty_unit(
+    t: &mut Tape, model: &Model, ix: &Index, ctx: &[String], cfg: &GenCfg, fault: Fault, failing: &[usize],
+) -> Option<(Unit, UnitKind)> {
+    let decls = &model.spec.decls;
+    let with = |pred: &dyn Fn(&vcore::spec::Decl) -> bool| -> Vec<usize> {
+        (0..decls.len()).filter(|i| !failing.contains(i) && pred(&decls[*i])).collect()
+    };
+    let unit_for = |t: &mut Tape, only: Vec<usize>| -> Option<Unit> {
+        if only.is_empty() {
+            return None;
+        }
+        let mut c = cfg.clone();
+        c.only = Some(only);
+        c.avoid = Vec::new();
+        c.w_unit = [6, 3, 2, 0];
+        let u = gen::gen_unit(t, ix, ctx, &c);
+        match model.resolve(ctx, &u.header).target {
+            Some(Target::User(_)) => Some(u),
+            _ => None,
+        }
+    };
+    match fault {
+        Fault::Syntax => {
+            let raw = SYNTAX_UNITS[t.below(SYNTAX_UNITS.len())];
+            let mut u = Unit::new(
+                Header {
+                    absolute: false,
+                    mnems: vec!["A".into()],
+                    query: false,
+                },
+                vec![],
+            );
+            u.raw = Some(raw.to_vec());
+            Some((u, UnitKind::Syntax))
+        }
+        Fault::UndefHard => {
+            let mut u = unit_for(t, with(&|_| true))?;
+            let k = t.below(u.header.mnems.len());
+            if u.header.is_common() {
+                u.header.mnems[0] = "*NOPE".into();
+            }
+            else {
+                u.header.mnems[k] = ["NOPE", "XYZ", "Q1"][t.below(3)].into();
+            }
+            if model.resolve(ctx, &u.header).target.is_some() {
+                return None;
+            }
+            Some((u, UnitKind::Normal))
+        }
+        Fault::UndefSoft => {
+            let mut u = unit_for(t, with(&|_| true))?;
+            u.header.query = !u.header.query;
+            u.args.clear();
+            if model.resolve(ctx, &u.header).target.is_some() {
+                return None;
+            }
+            Some((u, UnitKind::Normal))
+        }
+        Fault::Arity => {
+            let mut u = unit_for(t, with(&|d| d.params.len() < 10))?;
+            if !u.args.is_empty() && t.chance(1, 2) {
+                u.args.pop();
+            }
+            else {
+                u.args.push(Lit::Dec("1".into()));
+            }
+            Some((u, UnitKind::Normal))
+        }
+        Fault::Kind => {
+            let mut u = unit_for(t, with(&|d| d.params.iter().any(|p| *p != Ty::Bool)))?;
+            let id = match model.resolve(ctx, &u.header).target {
+                Some(Target::User(i)) => i,
+                _ => return None,
+            };
+            let cands: Vec<usize> = (0..decls[id].params.len()).filter(|j| decls[id].params[*j] != Ty::Bool).collect();
+            let j = cands[t.below(cands.len())];
+            u.args[j] = mismatched_literal(t, decls[id].params[j]);
+            Some((u, UnitKind::Normal))
+        }
+        Fault::Range => {
+            let mut u = unit_for(t, with(&|d| d.params.iter().any(|p| p.is_int())))?;
+            let id = match model.resolve(ctx, &u.header).target {
+                Some(Target::User(i)) => i,
+                _ => return None,
+            };
+            let cands: Vec<usize> = (0..decls[id].params.len()).filter(|j| decls[id].params[*j].is_int()).collect();
+            let j = cands[t.below(cands.len())];
+            let (lo, hi) = decls[id].params[j].int_bounds();
+            u.args[j] = match t.below(3) {
+                0 => Lit::Dec((hi + 1).to_string()),
+                1 => Lit::Dec((lo - 1).to_string()),
+                _ => vcore::lits::nondec_lit(t, (hi + 1) as u128, 16),
+            };
+            Some((u, UnitKind::Normal))
+        }
+        Fault::NotBool => {
+            let mut u = unit_for(t, with(&|d| d.params.iter().any(|p| *p == Ty::Bool)))?;
+            let id = match model.resolve(ctx, &u.header).target {
+                Some(Target::User(i)) => i,
+                _ => return None,
+            };
+            let j = decls[id].params.iter().position(|p| *p == Ty::Bool)?;
+            u.args[j] = [Lit::Chars("MAYBE".into()), Lit::Dec("2".into()), Lit::Chars("O".into()), Lit::Dec("-1".into())][t.below(4)].clone();
+            Some((u, UnitKind::Normal))
+        }
+        Fault::HandlerErr => {
+            if failing.is_empty() {
+                return None;
+            }
+            let mut c = cfg.clone();
+            c.only = Some(failing.to_vec());
+            c.avoid = Vec::new();
+            c.w_unit = [6, 3, 2, 0];
+            let u = gen::gen_unit(t, ix, ctx, &c);
+            match model.resolve(ctx, &u.header).target {
+                Some(Target::User(i)) if failing.contains(&i) => Some((u, UnitKind::Normal)),
+                _ => None,
+            }
+        }
+    }
+}
+
+/// C06: a faulty message is reported once and never affects later messages.
+pub fn c06_prop(model: &Model, ix: &Index, ex: &Exec, tape: &[u32], st: &mut Stats) -> Result<(), String> {
+    let mut t = Tape::new(tape);
+    let mut env = Env::new(model, ex.qcap);
+    // declarations whose handler fails in this case
+    let n_decl = model.spec.decls.len();
+    let mut failing: Vec<usize> = Vec::new();
+    if n_decl > 0 {
+        for _ in 0..t.below(3) {
+            let id = t.below(n_decl);
+            if !failing.contains(&id) {
+                failing.push(id);
+                env.fail[id] = Some(if t.chance(1, 3) {
+                    FailSpec::Std(t.below(6))
+                }
+                else {
+                    FailSpec::Custom(
+                        match t.below(4) {
+                            0 => -(t.below(400) as i16) - 1,
+                            1 => t.below(1000) as i16 + 1,
+                            2 => i16::MIN,
+                            _ => -200,
+                        },
+                        t.below(8),
+                    )
+                });
+            }
+        }
+    }
+    let mut cfg = GenCfg::default();
+    cfg.max_units = 4;
+    cfg.lit.max_payload = 4;
+    cfg.avoid = failing.clone();
+    cfg.p_empty_message = 1;
+    cfg.p_trailing_semicolon = 1;
+    let n_msgs = t.range(2, 6);
+    let mut msgs: Vec<Message> = Vec::new();
+    let mut kinds: Vec<Vec<UnitKind>> = Vec::new();
+    let mut faults: Vec<Option<(Fault, usize, usize)>> = Vec::new();
+    for _ in 0..n_msgs {
+        if !t.chance(2, 5) {
+            let m = gen::gen_message(&mut t, ix, &cfg);
+            kinds.push(vec![UnitKind::Normal; m.units.len()]);
+            msgs.push(m);
+            faults.push(None);
+            continue;
+        }
+        // one faulty unit at a uniform position among 1-4 units
+        let n_units = t.range(1, 4);
+        let pos = t.below(n_units);
+        let fault = FAULTS[t.below(FAULTS.len())];
+        let mut units = Vec::new();
+        let mut ks = Vec::new();
+        let mut ctx: Vec<String> = Vec::new();
+        let mut placed = None;
+        for ui in 0..n_units {
+            if ui == pos {
+                if let Some((u, k)) = gen_faulty_unit(&mut t, model, ix, &ctx, &cfg, fault, &failing) {
+                    if let UnitKind::Normal = k {
+                        if let Some(c) = model.resolve(&ctx, &u.header).new_ctx {
+                            ctx = c;
+                        }
+                    }
+                    placed = Some(fault);
+                    units.push(u);
+                    ks.push(k);
+                    continue;
+                }
+            }
+            let mut c = cfg.clone();
+            if ui > 0 && matches!(ks.last(), Some(UnitKind::Syntax)) {
+                // the path after a syntactically broken unit is unspecified: continue absolutely
+                c.w_unit = [0, 3, 2, 0];
+                ctx = vec!["\u{0}unreachable".into()];
+            }
+            let u = gen::gen_unit(&mut t, ix, &ctx, &c);
+            if ctx.first().map(|s| s.starts_with('\u{0}')).unwrap_or(false) {
+                ctx = Vec::new();
+            }
+            if let Some(c2) = model.resolve(&ctx, &u.header).new_ctx {
+                ctx = c2;
+            }
+            units.push(u);
+            ks.push(UnitKind::Normal);
+        }
+        let mut m = Message::new(units);
+        m.crlf = t.chance(1, 4);
+        faults.push(placed.map(|f| (f, pos, n_units)));
+        kinds.push(ks);
+        msgs.push(m);
+    }
+    let stream = render_all(&msgs);
+    let pred = gen::predict(model, &msgs, Some(&kinds), &env);
+    let np = t.below(3);
+    let pauses: Vec<u8> = (0..np).map(|_| t.below(3) as u8).collect();
+
+    let out = (ex.run_rec)(&env, &pauses, &stream);
+    gen::match_log(
+        &pred,
+        &out.log,
+        &MatchCfg {
+            responses_in_log: true,
+            output: None,
+            qcap: ex.qcap,
+        },
+    )
+    .map_err(|e| format!("run('{}'): {} [log: {}]", esc(&stream), e, show_log(&out.log)))?;
+    if out.rest != 0 {
+        return Err(format!("run('{}') returned {} unprocessed bytes of complete messages", esc(&stream), out.rest));
+    }
+
+    let longest = msgs.iter().map(|m| m.rendered().len()).max().unwrap_or(1);
+    let need = longest.max(response_bound(&pred));
+    let fitting: Vec<usize> = ex.sizes.iter().copied().filter(|n| *n >= need).collect();
+    if !fitting.is_empty() {
+        let n = fitting[t.below(fitting.len().min(3))];
+        let reads = gen_reads(&mut t, stream.len(), n);
+        let po = (ex.process)(&env, n, &pauses, &stream, &reads);
+        let (_, written) = crate::observation(&po.log, &[]);
+        gen::match_log(
+            &pred,
+            &po.log,
+            &MatchCfg {
+                responses_in_log: false,
+                output: Some(written),
+                qcap: ex.qcap,
+            },
+        )
+        .map_err(|e| {
+            format!(
+                "process::<{}>('{}') reads {:?}: {} [log: {}]",
+                n,
+                esc(&stream),
+                show_reads(&reads),
+                e,
+                show_log(&po.log)
+            )
+        })?;
+    }
+    let mut prev_faulty = false;
+    let mut nontrivial = false;
+    for (i, f) in faults.iter().enumerate() {
+        if let Some((fault, pos, n_units)) = f {
+            st.class(&format!("fault {:?}", fault));
+            if pos + 1 < *n_units {
+                st.class("fault not in the last unit");
+                if i + 1 < faults.len() {
+                    nontrivial = true;
+                }
+            }
+            if prev_faulty {
+                st.class("two faulty messages in a row");
+                nontrivial = true;
+            }
+            prev_faulty = true;
+        }
+        else {
+            prev_faulty = false;
+        }
+    }
+    if nontrivial {
+        st.nontrivial(&stream);
+    }
+    st.sample(|| json!({ "stream": esc(&stream), "faults": faults.iter().map(|f| f.map(|(k, p, n)| format!("{:?} at unit {}/{}", k, p + 1, n))).collect::<Vec<_>>() }));
     Ok(())
 }
